@@ -979,6 +979,7 @@ impl Sim {
                     peer: PeerIndex::new(session),
                     data,
                 }),
+                then: None,
             });
         }
         Some(crate::runner::PairJob {
@@ -986,6 +987,7 @@ impl Sim {
             request: self.pair_request(op),
             seed,
             deliver: None,
+            then: None,
         })
     }
 
@@ -1047,6 +1049,11 @@ impl Sim {
                 self.snapshot = None;
                 return;
             }
+        }
+        if mode.starts_with("serial:") || mode == "triple" {
+            self.run_triple_event(ev, write, &mode, job);
+            self.snapshot = self.c17_snapshot();
+            return;
         }
         match mode.as_str() {
             "before" => {
@@ -1132,6 +1139,92 @@ impl Sim {
             }
         }
         self.snapshot = self.c17_snapshot();
+    }
+
+    /// Three operations: A (the history's event), B and C (built from the state before A).
+    fn run_triple_event(&mut self, ev: Ev, write: u64, mode: &str, job_b: crate::runner::PairJob) {
+        let f = |k: &str| self.plan.flags.iter().find_map(|x| x.strip_prefix(k).and_then(|v| v.parse::<u64>().ok()));
+        let op2 = f("pair_op2=").unwrap_or(0);
+        let park2 = f("pair_park2=").unwrap_or(1);
+        let a_proto = match &ev {
+            Ev::ToClient { proto, .. } | Ev::Timer { proto, .. } => Some(crate::client::Proto::support(*proto).protocol_id()),
+            _ => None,
+        };
+        let job_c = match self.pair_job(op2) {
+            Some(j) => j,
+            None => {
+                self.stat("probe.c17.no_such_message_now");
+                self.dispatch(ev);
+                self.snapshot = None;
+                return;
+            }
+        };
+        // handlers of one protocol never run at the same time
+        let b_proto = job_b.deliver.as_ref().map(|d| d.nc.protocol_id());
+        let c_proto = job_c.deliver.as_ref().map(|d| d.nc.protocol_id());
+        if (c_proto.is_some() && (c_proto == a_proto || c_proto == b_proto)) || (b_proto.is_some() && b_proto == a_proto) {
+            self.stat("probe.c17.same_protocol_not_paired");
+            self.dispatch(ev);
+            self.snapshot = None;
+            return;
+        }
+        if let Some(order) = mode.strip_prefix("serial:") {
+            let mut parts = order.split('|');
+            let before: Vec<char> = parts.next().unwrap_or("").chars().collect();
+            let after: Vec<char> = parts.next().unwrap_or("").chars().collect();
+            let mut jb = Some(job_b);
+            let mut jc = Some(job_c);
+            for ch in before {
+                let j = if ch == 'B' { jb.take() } else { jc.take() };
+                if let Some(j) = j {
+                    let _ = self.run_pair_job_alone(j);
+                    self.flush(None);
+                }
+            }
+            self.dispatch(ev);
+            if self.client.is_none() {
+                return;
+            }
+            for ch in after {
+                let j = if ch == 'B' { jb.take() } else { jc.take() };
+                if let Some(j) = j {
+                    let _ = self.run_pair_job_alone(j);
+                    self.flush(None);
+                }
+            }
+            return;
+        }
+        let mut job_b = job_b;
+        job_b.then = Some((park2, Box::new(job_c)));
+        crate::runner::arm_pause(write, job_b);
+        self.dispatch(ev);
+        if crate::runner::take_paused_at_lock_intent() {
+            self.stat("probe.c17.paused_before_taking_the_lock");
+        }
+        match crate::runner::join_pair() {
+            Ok(a) => self.pair_answer = Some(a),
+            Err(e) if e == "DEADLOCK" => {
+                self.violate("C17", "deadlock", format!("the second operation never finished after {} returned (three threads)", self.last_event_kind));
+            }
+            Err(e) => self.harness_error = Some(e),
+        }
+        match crate::runner::join_third() {
+            crate::runner::ThirdOutcome::Ran(0, _) => self.stat("probe.c17.third_ran_inside_second"),
+            crate::runner::ThirdOutcome::Ran(_, _) => self.stat("probe.c17.third_blocked"),
+            crate::runner::ThirdOutcome::NotStarted(j) => {
+                // the second operation never reached its parking boundary (it is shorter, or it
+                // waited for A): the third one runs last
+                self.stat("probe.c17.third_ran_last");
+                if self.client.is_some() {
+                    let _ = self.run_pair_job_alone(j);
+                }
+            }
+            crate::runner::ThirdOutcome::Deadlock => {
+                self.violate("C17", "deadlock", format!("the third operation never finished after {} and the second operation returned", self.last_event_kind));
+            }
+            crate::runner::ThirdOutcome::None => {}
+        }
+        self.flush(None);
     }
 
     /// Everything the two operations can have changed: the raw keyspace, the in-memory
